@@ -123,11 +123,38 @@ class SetOf(T):
 
 class DictOf(T):
     """A dict: key sequence (duplicate free, insertion order) + value map."""
-    def __init__(self, key: T, value: T) -> None:
-        self.key, self.value = key, value
+    def __init__(self, key: T, value: T, distinct: bool = False) -> None:
+        self.key, self.value, self.distinct = key, value, distinct
 
     def __repr__(self) -> str:
         return f"DictOf({self.key!r},{self.value!r})"
+
+
+class Ref(T):
+    """An opaque heap object of class `cls`: identity + declared, immutable, typed field functions.
+    Methods are resolved through the contract's `stubs` ("Cls.method": spec function | External).
+    `maybe` lists class names for which isinstance() is unknown (an uninterpreted predicate)."""
+    def __init__(self, cls: str, maybe: Optional[list[str]] = None, isa: Optional[list[str]] = None,
+                 abstract: bool = False, **fields: T) -> None:
+        self.cls = cls
+        self.abstract = abstract
+        self.fields = fields
+        self.maybe = maybe or []
+        self.isa = isa or []
+
+    def __repr__(self) -> str:
+        return f"Ref({self.cls})"
+
+
+class External:
+    """Assumed contract of a callee outside the verified world: returns a fresh value of `returns`,
+    may raise any of `raises` (nondeterministically), has no file-system effect unless `effect`."""
+    def __init__(self, returns: T = None, raises: Optional[list[str]] = None, effect: Optional[str] = None,
+                 pure: bool = False) -> None:
+        self.returns = returns
+        self.raises = raises or []
+        self.effect = effect
+        self.pure = pure
 
 
 class Loop:
